@@ -7,7 +7,6 @@ import (
 	"fmt"
 	"os"
 	"path/filepath"
-	"strings"
 
 	"github.com/spf13/cobra"
 )
@@ -45,7 +44,7 @@ var rmCmd = &cobra.Command{
 			}
 			// check if the arg is registered in the Index
 			cleanedArg := filepath.Clean(arg)
-			cleanedArg = strings.ReplaceAll(cleanedArg, `\`, "/")
+			cleanedArg = filepath.ToSlash(cleanedArg)
 
 			_, _, isRegistered := client.Idx.GetEntry([]byte(cleanedArg))
 			isRegisteredAsDir := client.Idx.IsRegisteredAsDirectory(cleanedArg)
@@ -58,7 +57,7 @@ var rmCmd = &cobra.Command{
 		// remove file from working tree and index
 		for _, arg := range args {
 			cleanedArg := filepath.Clean(arg)
-			cleanedArg = strings.ReplaceAll(cleanedArg, `\`, "/")
+			cleanedArg = filepath.ToSlash(cleanedArg)
 
 			if _, _, isRegistered := client.Idx.GetEntry([]byte(cleanedArg)); isRegistered {
 				// remove from the working tree
